@@ -634,22 +634,39 @@ func ruleD5(c *Ctx, floor int) {
 				if other == nil || !isNilIdent(info, other) {
 					return true
 				}
-				// the test must dominate the use; for `== nil` the use must not be in the true branch
+				// the test must dominate the use and actually establish non-nil there
 				if !fl.Dominates(be, at) {
 					return true
 				}
-				if be.Op == token.EQL {
-					if ifs, isIf := p.Parent(be).(*ast.IfStmt); isIf && p.inside(at, ifs.Body) {
+				// the comparison's position inside its condition: it must be the whole
+				// condition or a top-level operand of the right connective
+				top, conn := topOperand(p, be)
+				switch par := p.Parent(top).(type) {
+				case *ast.IfStmt:
+					inBody := p.inside(at, par.Body)
+					if be.Op == token.EQL {
+						// if a == nil [|| …] { leave }  … use after
+						if inBody || conn == token.LAND || !blockLeaves(par.Body) {
+							return true
+						}
+					} else {
+						// if a != nil [&& …] { use }
+						if !inBody || conn == token.LOR {
+							return true
+						}
+					}
+				case *ast.ForStmt:
+					inBody := p.inside(at, par.Body)
+					if be.Op == token.EQL {
+						// for a == nil [|| …] { … }  use after the loop
+						if inBody || conn == token.LAND {
+							return true
+						}
+					} else if !inBody || conn == token.LOR {
 						return true
 					}
-					if fs, isFor := p.Parent(be).(*ast.ForStmt); isFor && p.inside(at, fs.Body) {
-						return true
-					}
-				}
-				if be.Op == token.NEQ {
-					if ifs, isIf := p.Parent(be).(*ast.IfStmt); isIf && !p.inside(at, ifs.Body) {
-						return true
-					}
+				default:
+					return true
 				}
 				ok = true
 				return true
@@ -809,4 +826,57 @@ func ruleD6(c *Ctx, floor int) {
 		}
 		visit(f)
 	}
+}
+
+// topOperand climbs from a comparison to the outermost boolean expression it
+// is an operand of, and reports the connective (LAND/LOR) on the way, or
+// ILLEGAL when the comparison is the whole condition. Mixed connectives and
+// negations yield LAND for == and LOR for != (i.e. "establishes nothing").
+func topOperand(p *Prog, be *ast.BinaryExpr) (ast.Expr, token.Token) {
+	var cur ast.Expr = be
+	conn := token.ILLEGAL
+	for {
+		switch par := p.Parent(cur).(type) {
+		case *ast.ParenExpr:
+			cur = par
+			continue
+		case *ast.BinaryExpr:
+			if par.Op == token.LAND || par.Op == token.LOR {
+				if conn != token.ILLEGAL && conn != par.Op {
+					if be.Op == token.EQL {
+						return par, token.LAND
+					}
+					return par, token.LOR
+				}
+				conn = par.Op
+				cur = par
+				continue
+			}
+		case *ast.UnaryExpr:
+			if be.Op == token.EQL {
+				return par, token.LAND
+			}
+			return par, token.LOR
+		}
+		return cur, conn
+	}
+}
+
+// blockLeaves: the block ends by leaving the enclosing flow (return, break,
+// continue, goto, panic).
+func blockLeaves(b *ast.BlockStmt) bool {
+	if len(b.List) == 0 {
+		return false
+	}
+	switch t := b.List[len(b.List)-1].(type) {
+	case *ast.ReturnStmt, *ast.BranchStmt:
+		return true
+	case *ast.ExprStmt:
+		if call, ok := t.X.(*ast.CallExpr); ok {
+			if id, ok := call.Fun.(*ast.Ident); ok && id.Name == "panic" {
+				return true
+			}
+		}
+	}
+	return false
 }
